@@ -35,6 +35,17 @@ objects are in at that call. Also: field grids of another shape than the flow-di
 the kernel on explicit memory (both float buffers compared after the call), and the model's own vocabulary
 (AllTerminate, endsAt, upstream closure, direct upstream cells) against the harness's graph search on every grid up
 to 2x2 and every fifth random grid.
+Round 7: every history is ALSO replayed by the model's own `run` (Sess / step over List Op) from the initial state and
+the operations alone — answers, operations that must raise and change nothing (an array of another shape assigned to
+the flow-direction grid or the field, a cell index outside the grid, a limit 0 / -3), the contents of the field, of the
+last result and of the flow directions at the end; nprint takes the wrapper's default (100), 1, 2, 3, 7, n, n+1 and a
+value that never prints (0 and negative values in a child process, compared with the answers obtained here), the kernel
+stream sends the model's kernel WITH its nprint branch; integer-valued cases are also evaluated by the model in exact
+integers (its Float instance must agree, and so must the real code where the property fixes the values); the pinned
+kernel of the model against its repaired kernel (equal on uniform fields); grids without rows / without columns through
+the wrapper (default limit, 1, 4, 0: run, recorded, not compared — outside the property); and, on a
+quarter of the random grids, the same flattened codes and field on a grid of ANOTHER shape with as many cells, right after
+(and back).
 A case is non-trivial when the grid is acyclic, run with the default limit, and has a cell that drains
 into another cell.
 """
@@ -48,7 +59,7 @@ from . import common as C
 
 PID = "C11"
 EPS = 2.0 ** -52
-NPRINT = 10 ** 9          # never 0 (i % nprint divides by zero in the kernel: C05's matter)
+NPRINT = 10 ** 9          # "never prints"; other values: see the docstring (0 and negatives only in a child process)
 ALPHABET = None           # filled from FLOWDIRCODE at run time
 
 
@@ -241,6 +252,7 @@ class Runner:
         self.offsets = offsets_of(G.FLOWDIRCODE)
         self.code_at = {v: k for k, v in self.offsets.items()}
         self.reqs, self.info = [], []
+        self.ncalls, self.last_info = 0, None
         self.guards = self.read_guards()
 
     # -- which guard of c_accumulate produced an error code: resolved against the CURRENT source text
@@ -303,7 +315,7 @@ class Runner:
                     return
 
     def wrapper_case(self, nrows, ncols, fd, field, nodata, cap, fd_dtype="int64", f_dtype="float64",
-                     tag="", origin="gen", bounds=False):
+                     tag="", origin="gen", bounds=False, nprint=NPRINT):
         np, G, ctx = self.np, self.G, self.ctx
         n = nrows * ncols
         fdg = G.Grid("fd", ncols=ncols, nrows=nrows, dtype=getattr(np, fd_dtype), nodata=nodata if field is None else 0)
@@ -328,9 +340,10 @@ class Runner:
                 fd_seen = [int(v) for v in fdg.data.ravel()]
                 fd_before = fdg.data.copy()
             nd = float(fdg.nodata)
-        return self.call_grids(fdg, fg, cap, tag, origin, {"fd_dtype": fd_dtype, "f_dtype": f_dtype, "bounds": bool(bounds)})
+        return self.call_grids(fdg, fg, cap, tag, origin, {"fd_dtype": fd_dtype, "f_dtype": f_dtype, "bounds": bool(bounds)},
+                               nprint=nprint)
 
-    def call_grids(self, fdg, fg, cap, tag="", origin="gen", meta=None, history=None):
+    def call_grids(self, fdg, fg, cap, tag="", origin="gen", meta=None, history=None, nprint=NPRINT):
         """one call of grid.accumulate on grid OBJECTS in whatever state they are now: the request to the model, the
         oracle and the unchanged-input check are all evaluated on the state read here, just before the call"""
         np, G, ctx = self.np, self.G, self.ctx
@@ -359,7 +372,9 @@ class Runner:
         res = None
         try:
             kw = {} if cap is None else {"max_accumulated_cells": cap}
-            res = G.accumulate(fdg, fg, nprint=NPRINT, **kw)
+            if nprint is not None:
+                kw["nprint"] = nprint           # None: the default of the wrapper (100)
+            res = G.accumulate(fdg, fg, **kw)
             out = [float(v) for v in res.data.ravel()]
             impl = ("ok", out, float(res.nodata), tuple(int(v) for v in res.data.shape),
                     None if fg is None else [float(v) for v in np.asarray(fg.data, dtype=np.float64).ravel()])
@@ -379,14 +394,28 @@ class Runner:
         else:
             req = head + f" {fshape[0]} {fshape[1]} {C.f2h(nd)} {C.flist(fvals)}"
         fl = Flow(nrows, ncols, fd_seen, self.offsets)
-        self.reqs.append(req)
-        self.info.append((case, impl, fvals, nd, self.mult(nrows, ncols, fd_seen, cap, fl)))
+        if nprint != NPRINT:
+            case["nprint"] = nprint
+        self.last_info = (case, impl, fvals, nd, self.mult(nrows, ncols, fd_seen, cap, fl))
+        if n > 0:
+            self.reqs.append(req)
+            self.info.append(self.last_info)
+        self.ncalls += 1
+        if n > 0 and fshape == (nrows, ncols) and len(fvals) == n:
+            self.side_requests(case, impl, nrows, ncols, fd_seen, fvals, nd, cap, fl)
         # inputs unchanged (values; the wrapper may change the dtype of the grids it was given)
         if not np.array_equal(fdg.data.astype(np.float64), fd_before.astype(np.float64)):
             ctx.finding("accumulate/input_altered/flowdir", "cell values of the flow-direction grid changed during the call", case)
         if fg is not None and not np.array_equal(fg.data.astype(np.float64), f_before.astype(np.float64), equal_nan=True):
             ctx.finding("accumulate/input_altered/field", "cell values of the accumulated field changed during the call", case)
-        if fshape == (nrows, ncols) and len(fvals) == n:
+        if n == 0:
+            # a grid without rows or without columns is outside the property ("grids of r x c cells"): the real code is
+            # run there (it must return or raise), what it answers is recorded and NOT compared — the property does not
+            # say whether such a grid is rejected (the model's answers: Props accumulate_default_rejects_empty,
+            # cAccumulate_rejects_rows, cAccumulate_zero_cols)
+            ctx.count(("empty", nrows, ncols, cap), False,
+                      f"wrapper/{tag}/no_cells/{'default' if cap is None else 'limit' + str(cap)}/{'ok' if impl[0] == 'ok' else 'rejected'}")
+        elif fshape == (nrows, ncols) and len(fvals) == n:
             self.oracle(case, nrows, ncols, fd_seen, fvals, fg is None, nd, cap, impl, tag, origin, fl)
         else:
             ctx.count(("shape", nrows, ncols, fshape), False, f"wrapper/{tag}/shape_mismatch")
@@ -394,8 +423,28 @@ class Runner:
                 pass        # a field of another shape accepted: not a clause of the property; the correspondence reports it
         return res
 
+    # -- model-only cross-checks on the case stream: the Int instance against the Float instance (exact integers), the
+    #    pinned kernel against the repaired one (equal on uniform fields)
+    def side_requests(self, case, impl, nrows, ncols, fd, fvals, nd, cap, fl):
+        k = self.ncalls
+        default_cap = cap is None or cap == -1
+        integral = nd == nd and nd == int(nd) and abs(nd) < 2 ** 40 and all(v == v and abs(v) < 2 ** 40 and v == int(v) for v in fvals)
+        ea, ep = (59, 83) if self.ctx.thorough else (7, 11)       # the thorough tier has 30 times as many calls
+        if k % ea == 0 and integral and (default_cap or cap >= 1):
+            inside = fl.acyclic and (default_cap or cap >= fl.longest)
+            self.reqs.append(f"acci {nrows} {ncols} {self.codes_tok} {C.ilist(fd)} {-1 if cap is None else cap} {int(nd)} "
+                             f"{C.ilist(int(v) for v in fvals)}")
+            self.info.append((case, ("acci", impl, inside), [], 0.0, 1))
+        if k % ea == 3 and not integral and (default_cap or cap >= 1):
+            # IEEE addition as a rounding of the exact sum: the Float instance against `Rounded Rat (rndBits 53)`
+            self.reqs.append(f"accr {nrows} {ncols} {self.codes_tok} {C.ilist(fd)} {-1 if cap is None else cap} {C.f2h(nd)} {C.flist(fvals)}")
+            self.info.append((case, ("accr",), [], 0.0, 1))
+        if k % ep == 0 and (default_cap or cap >= 1) and all(v == v for v in fvals):
+            self.reqs.append(f"pin {nrows} {ncols} {self.codes_tok} {C.ilist(fd)} {-1 if cap is None else cap} {C.f2h(nd)} {C.flist(fvals)}")
+            self.info.append((case, ("pin", is_uniform(fvals)), [], 0.0, 1))
+
     # -- the extension entry point on explicit buffers (accumulation buffer independent of the field, or the SAME array)
-    def kernel_case(self, nrows, ncols, fd, fvals, nodata, cap, acc0, tag="", alias=False):
+    def kernel_case(self, nrows, ncols, fd, fvals, nodata, cap, acc0, tag="", alias=False, nprint=NPRINT):
         np, ctx = self.np, self.ctx
         fda = np.array(fd, dtype=np.int64).reshape(nrows, ncols)
         fa = np.array(fvals, dtype=np.float64).reshape(nrows, ncols)
@@ -404,7 +453,9 @@ class Runner:
         case = {"nrows": nrows, "ncols": ncols, "flowdir": [int(v) for v in fd], "field": [float(v) for v in fvals],
                 "nodata": nodata if nodata == nodata else "nan", "cap": cap, "acc0": [float(v) for v in acc0], "via": "kernel",
                 "alias": bool(alias)}
-        ierr = int(self.ext.accumulate(NPRINT, cap, nodata, self.G.FLOWDIRCODE, fda, fa, acc))
+        if nprint != NPRINT:
+            case["nprint"] = nprint
+        ierr = int(self.ext.accumulate(nprint, cap, nodata, self.G.FLOWDIRCODE, fda, fa, acc))
         impl = ("okS", [float(v) for v in fa.ravel()], [float(v) for v in acc.ravel()]) if ierr == 0 else ("err", self.err_kind(ierr))
         if cap < 1 or nrows < 1 or ncols < 1:
             # a direct kernel call with a limit < 1 or a grid without rows / columns (a Grid always has both; a bad limit
@@ -414,6 +465,11 @@ class Runner:
         self.reqs.append(f"caccs {nrows} {ncols} {self.codes_tok} {C.ilist(fd)} {cap} {C.f2h(nodata)} "
                          f"{C.flist(fvals)} {C.flist([] if alias else acc0)} {1 if alias else 0}")
         self.info.append((case, impl, list(fvals) + list(acc0), nodata, self.mult(nrows, ncols, fd, cap)))
+        if nprint != NPRINT and not alias:
+            # the model's kernel WITH its nprint branch: same result as without, for this nprint
+            self.reqs.append(f"caccp {nrows} {ncols} {self.codes_tok} {C.ilist(fd)} {nprint} {cap} {C.f2h(nodata)} "
+                             f"{C.flist(fvals)} {C.flist(acc0)}")
+            self.info.append((case, ("caccp", ierr == 0), [], 0.0, 1))
         if not np.array_equal(fda, fd_b):
             ctx.finding("accumulate/input_altered/flowdir", "the kernel wrote into the flow-direction buffer", case)
         if not alias and not np.array_equal(fa, f_b, equal_nan=True):
@@ -543,72 +599,161 @@ class Runner:
                         ctx.disagree("C11: the model's upstream closure / direct upstream cells differ from the harness's graph search",
                                      {"request": req[:400], **case, "oracle": [impl[1], impl[2]], "model": [mclo, mups]})
                     continue
-                if rep.startswith("err:") or impl[0] == "err":
-                    # rejected vs accepted only: neither the wording, nor the error class, nor the layer that
-                    # rejects (wrapper or kernel) is fixed by the property
-                    a = "rejected" if impl[0] == "err" else "ok"
-                    b = "rejected" if rep.startswith("err:") else "ok"
-                    if a != b:
-                        ctx.disagree("C11: a call is rejected by one of implementation / model and accepted by the other",
-                                     {"request": req[:400], **case, "impl": a + (":" + str(impl[1]) if a != "ok" else ""), "model": rep[:40]})
+                if impl[0] == "acci":
+                    self.cmp_acci(req, case, impl[1], impl[2], rep)
                     continue
-                toks = rep[3:].split(" ")
-                # T1: every walk ends before the limit (acyclic grid, limit that truncates nothing) — the region where
-                # the property fixes the values. Elsewhere (cycles, truncating limit) only "returns without error" is
-                # required, and only that is compared.
-                region = toks[-1] == "T1"
-                toks = toks[:-1]
-                if not region:
-                    n_out = len(impl[2]) if impl[0] == "okS" else len(impl[1])
-                    if n_out != len(C.parse_list(toks[1] if impl[0] == "okS" else toks[0])):
-                        ctx.disagree("C11: number of cells of the result differs from the model", {"request": req[:400], **case})
+                if impl[0] == "accr":
+                    if rep not in ("R1", "skip"):
+                        ctx.disagree("C11: the Float instance of the model differs from the same kernel on exact rationals rounded to 53 "
+                                     "bits after every addition (IEEE addition is not the rounding the theorems assume?)",
+                                     {"request": req[:400], **case, "model": rep[:40]})
+                    ctx.count(("accr", req), False, "model/binary64_as_rounding/" + rep[:4])
                     continue
-                if impl[0] == "okS":
-                    # kernel on explicit memory: both float buffers after the call
-                    mfield, vals, sens = toks
-                    if not all((a != a and b != b) or a == b for a, b in zip(impl[1], C.parse_flist(mfield))) and not case.get("alias"):
-                        ctx.disagree("C11: to_accumulate memory after the call differs from the model", {"request": req[:400], **case})
-                    impl = ("ok", impl[2])
-                else:
-                    vals, sens = toks[0], toks[1]
-                    if len(toks) >= 6 and len(impl) >= 5:
-                        # wrapper on grid objects: no-data value and shape of the result, field memory after the call
-                        mnd, mshape = C.h2f(toks[2]), (int(toks[3]), int(toks[4]))
-                        if not ((mnd != mnd and impl[2] != impl[2]) or mnd == impl[2]) or mshape != tuple(impl[3]):
-                            ctx.disagree("C11: no-data value / shape of the result grid differ from the model",
-                                         {"request": req[:400], **case, "impl": [impl[2], list(impl[3])], "model": [mnd, list(mshape)]})
-                        if impl[4] is not None:
-                            mf = C.parse_flist(toks[5])
-                            if len(mf) != len(impl[4]) or not all((a != a and b != b) or a == b for a, b in zip(impl[4], mf)):
-                                ctx.disagree("C11: field grid values after the call differ from the model (which leaves them untouched)",
-                                             {"request": req[:400], **case})
-                model = C.parse_flist(vals)
-                # cells the model marks as depending on the visiting order of the outer loop (terminal cells
-                # incremented by a capped walk) are not constrained by the property: not compared
-                sens = {int(t) for t in C.parse_list(sens)}
-                out = impl[1]
-                scale = sum(abs(v) for v in mags if v == v and abs(v) != float("inf")) + (abs(nd) if nd == nd else 0.0)
-                # another order of summation is allowed: rounding budget for float fields; integer-valued fields
-                # (the unit field among them) whose sums stay below 2**52 are exact in any order -> exact comparison
-                integral = all(v == v and abs(v) != float("inf") and v == int(v) for v in mags) and scale < 2.0 ** 52
-                tol = 0.0 if integral else 4 * max(len(out), 1) * mult * EPS * scale
-                bad = len(model) != len(out)
-                if not bad:
-                    for i, (a, b) in enumerate(zip(out, model)):
-                        if i in sens:
-                            continue
-                        if not ((a != a and b != b) or a == b or abs(a - b) <= tol):
-                            bad = True
-                            case = {**case, "cell": i}
-                            break
-                if bad:
-                    ctx.disagree("C11: accumulate differs from the model", {"request": req[:400], **case, "impl": out[:64], "model": model[:64]})
+                if impl[0] == "pin":
+                    if rep not in ("eq", "ne") or (impl[1] and rep != "eq"):
+                        ctx.disagree("C11: the model's pinned kernel differs from its repaired kernel on a uniform field "
+                                     "(Props: cAccumulatePinned_eq_of_uniform)", {"request": req[:400], **case, "model": rep[:40]})
+                    ctx.count(("pin", req), False, "model/pinned_vs_repaired/" + ("uniform/" if impl[1] else "nonuniform/") + rep[:2])
+                    continue
+                if impl[0] == "caccp":
+                    good = (rep.startswith("ok:") and rep.endswith(" 1")) if impl[1] else rep.startswith("err:")
+                    if not good:
+                        ctx.disagree("C11: the model's kernel with its nprint branch differs from the one without "
+                                     "(Props: cAccumulateP_result), or is rejected where the code answers",
+                                     {"request": req[:400], **case, "model": rep[:80]})
+                    continue
+                if impl[0] == "hist":
+                    self.cmp_hist(req, case, impl, rep)
+                    continue
+                self.cmp_call(req, case, impl, mags, nd, mult, rep)
         self.reqs, self.info = [], []
+
+    def cmp_acci(self, req, case, impl, inside, rep):
+        """the model at exact integers: its Float instance must give the same integers (Props: accumulate_rounded_exact,
+        with IEEE addition as the rounding), and so must the real code wherever the property fixes the values"""
+        ctx = self.ctx
+        if rep.startswith("err:") or impl[0] == "err":
+            if rep.startswith("err:") != (impl[0] == "err"):
+                ctx.disagree("C11: a call is rejected by one of implementation / integer model and accepted by the other",
+                             {"request": req[:400], **case, "model": rep[:40]})
+            return
+        vals, flag = rep[3:].split(" ")
+        if flag != "F1":
+            ctx.disagree("C11: the Float instance of the model differs from its Int instance on an integer-valued field",
+                         {"request": req[:400], **case, "model": rep[:200]})
+        ints = [int(t) for t in C.parse_list(vals)]
+        ctx.count(("acci", req), inside, "model/int_instance/" + ("inside" if inside else "not_compared"))
+        if inside and (len(ints) != len(impl[1]) or any(float(a) != b for a, b in zip(ints, impl[1]))):
+            ctx.disagree("C11: accumulate on an integer-valued field differs from the model evaluated in exact integers",
+                         {"request": req[:400], **case, "impl": impl[1][:64], "model": ints[:64]})
+
+    def cmp_hist(self, req, case, impl, rep):
+        """a whole history replayed by the model's `run` from the initial state and the operations alone: every answer,
+        every rejected operation, and the contents of the objects at the end"""
+        ctx = self.ctx
+        _, expect, final = impl
+        parts = rep.split("|")
+        if len(parts) != len(expect) + 1 or not parts[-1].startswith("final:"):
+            ctx.disagree("C11: history reply of the model is malformed", {"request": req[:600], **case, "model": rep[:200]})
+            return
+        for i, (e, r) in enumerate(zip(expect, parts)):
+            if isinstance(e, str):
+                if e != r:
+                    ctx.disagree("C11: an operation of a history is rejected by one of implementation / model and accepted by the other",
+                                 {"request": req[:600], **case, "step": i, "impl": e, "model": r[:60]})
+                    return
+                continue
+            ccase, cimpl, mags, nd, mult = e
+            self.cmp_call(req, {**ccase, "step": i}, cimpl, mags, nd, mult, r)
+        mf, mr, mfd = parts[-1][len("final:"):].split(";")
+
+        def same_grid(tok, g):
+            if tok == "none" or g is None:
+                return (tok == "none") == (g is None)
+            nr, nc, ndt, data = tok.split(":")
+            mnd, vals = C.h2f(ndt), C.parse_flist(data)
+            return (int(nr), int(nc)) == g[0] and ((mnd != mnd and g[1] != g[1]) or mnd == g[1]) and len(vals) == len(g[2]) \
+                and all((a != a and b != b) or a == b for a, b in zip(vals, g[2]))
+        # the values of the last result are compared (within the budget, where the property fixes them) at the call that
+        # returned it: here only its shape and no-data value
+        res_ok = final["res"] is None or (mr != "none" and same_grid(":".join(mr.split(":")[:3]) + ":" + C.flist(final["res"][2]), final["res"]))
+        ok = same_grid(mf, final["field"]) and res_ok and [int(t) for t in C.parse_list(mfd)] == final["fd"]
+        if not ok:
+            ctx.disagree("C11: the objects at the end of a history differ from the model's (field / last result / flow directions)",
+                         {"request": req[:600], **case, "impl": {k: (v if k == "fd" or v is None else [list(v[0]), v[1], v[2][:32]]) for k, v in final.items()},
+                          "model": parts[-1][:400]})
+
+    def cmp_call(self, req, case, impl, mags, nd, mult, rep):
+        ctx = self.ctx
+        if rep.startswith("err:") or impl[0] == "err":
+            # rejected vs accepted only: neither the wording, nor the error class, nor the layer that
+            # rejects (wrapper or kernel) is fixed by the property
+            a = "rejected" if impl[0] == "err" else "ok"
+            b = "rejected" if rep.startswith("err:") else "ok"
+            if a != b:
+                ctx.disagree("C11: a call is rejected by one of implementation / model and accepted by the other",
+                             {"request": req[:400], **case, "impl": a + (":" + str(impl[1]) if a != "ok" else ""), "model": rep[:40]})
+            return
+        toks = rep[3:].split(" ")
+        # T1: every walk ends before the limit (acyclic grid, limit that truncates nothing) — the region where
+        # the property fixes the values. Elsewhere (cycles, truncating limit) only "returns without error" is
+        # required, and only that is compared.
+        region = toks[-1] == "T1"
+        toks = toks[:-1]
+        if not region:
+            n_out = len(impl[2]) if impl[0] == "okS" else len(impl[1])
+            if n_out != len(C.parse_list(toks[1] if impl[0] == "okS" else toks[0])):
+                ctx.disagree("C11: number of cells of the result differs from the model", {"request": req[:400], **case})
+            return
+        if impl[0] == "okS":
+            # kernel on explicit memory: both float buffers after the call
+            mfield, vals, sens = toks
+            if not all((a != a and b != b) or a == b for a, b in zip(impl[1], C.parse_flist(mfield))) and not case.get("alias"):
+                ctx.disagree("C11: to_accumulate memory after the call differs from the model", {"request": req[:400], **case})
+            impl = ("ok", impl[2])
+        else:
+            vals, sens = toks[0], toks[1]
+            if len(toks) >= 6 and len(impl) >= 5:
+                # wrapper on grid objects: no-data value and shape of the result, field memory after the call
+                mnd, mshape = C.h2f(toks[2]), (int(toks[3]), int(toks[4]))
+                if not ((mnd != mnd and impl[2] != impl[2]) or mnd == impl[2]) or mshape != tuple(impl[3]):
+                    ctx.disagree("C11: no-data value / shape of the result grid differ from the model",
+                                 {"request": req[:400], **case, "impl": [impl[2], list(impl[3])], "model": [mnd, list(mshape)]})
+                if impl[4] is not None:
+                    mf = C.parse_flist(toks[5])
+                    if len(mf) != len(impl[4]) or not all((a != a and b != b) or a == b for a, b in zip(impl[4], mf)):
+                        ctx.disagree("C11: field grid values after the call differ from the model (which leaves them untouched)",
+                                     {"request": req[:400], **case})
+        model = C.parse_flist(vals)
+        # cells the model marks as depending on the visiting order of the outer loop (terminal cells
+        # incremented by a capped walk) are not constrained by the property: not compared
+        sens = {int(t) for t in C.parse_list(sens)}
+        out = impl[1]
+        scale = sum(abs(v) for v in mags if v == v and abs(v) != float("inf")) + (abs(nd) if nd == nd else 0.0)
+        # another order of summation is allowed: rounding budget for float fields (Props: accumulate_rounded_error bounds
+        # each order by ((1+u)^k - 1) * sum|f| <= 2 k u sum|f|, u = 2^-53); integer-valued fields (the unit field among
+        # them) whose sums stay below 2**52 are exact in any order (Props: accumulate_rounded_exact) -> exact comparison
+        integral = all(v == v and abs(v) != float("inf") and v == int(v) for v in mags) and scale < 2.0 ** 52
+        tol = 0.0 if integral else 4 * max(len(out), 1) * mult * EPS * scale
+        bad = len(model) != len(out)
+        if not bad:
+            for i, (a, b) in enumerate(zip(out, model)):
+                if i in sens:
+                    continue
+                if not ((a != a and b != b) or a == b or abs(a - b) <= tol):
+                    bad = True
+                    case = {**case, "cell": i}
+                    break
+        if bad:
+            ctx.disagree("C11: accumulate differs from the model", {"request": req[:400], **case, "impl": out[:64], "model": model[:64]})
 
 
 def history_case(R, rng, code_at, alphabet, nmax):
-    """a short history on ONE pair of grid objects: call, then 1-3 times (change the state, call again); every answer
-    is compared with the model and the oracle evaluated on the state the objects are in at that call"""
+    """a short history on ONE pair of grid objects: call, then 1-3 times (change the state, call again). Every answer
+    is compared (a) with the model and the oracle evaluated on the state the objects are in at that call, and (b) with
+    the model's own `run` of the whole history from the initial state and the operations alone (values written are sent
+    as the object holds them afterwards: numpy's cast is external) — answers, rejected operations (they must raise and
+    change nothing) and the contents of the objects at the end"""
     import copy
     import pickle
     np, G = R.np, R.G
@@ -630,6 +775,15 @@ def history_case(R, rng, code_at, alphabet, nmax):
     def new_field():
         return gen_field(rng, n, rng.choice(["uniform", "posint", "distinct", "posfloat", "signed"]), -9999.0)
 
+    def fvals_of(g):
+        return [float(v) for v in np.asarray(g.data, dtype=np.float64).ravel()]
+
+    def gtok(g):
+        return f"{int(g.nrows)}:{int(g.ncols)}:{C.f2h(float(g.nodata))}:{C.flist(fvals_of(g))}"
+
+    def fdvals():
+        return [int(v) for v in np.asarray(fdg.data).ravel()]
+
     fd_dtype = rng.choice(["int64", "int64", "uint8", "int32", "float64"])
     fd0 = new_fd()
     if fd_dtype == "uint8" and not all(0 <= v <= 255 for v in fd0):
@@ -641,63 +795,209 @@ def history_case(R, rng, code_at, alphabet, nmax):
         f_dtype = rng.choice(["float64", "float64", "int32", "float32"])
         fg = G.Grid("f", ncols=ncols, nrows=nrows, dtype=getattr(np, f_dtype), nodata=rng.choice([-9999, -1, 0]))
         fg.data = np.array(new_field(), dtype=np.float64).reshape(nrows, ncols)
+    head = f"hist {nrows} {ncols} {R.codes_tok} {C.ilist(fdvals())} {C.f2h(float(fdg.nodata))} -1 {'none' if fg is None else gtok(fg)}"
+    case0 = {"nrows": nrows, "ncols": ncols, "flowdir": fdvals(), "field": None if fg is None else fvals_of(fg), "via": "history"}
+    ops, expect = [], []          # operation tokens for the model, what the real objects answered
+
+    def do_call():
+        nonlocal res
+        res = R.call_grids(fdg, fg, cap, tag="history", history=list(hist),
+                           nprint=rng.choice([NPRINT, NPRINT, None, 1, 3]))
+        ops.append("call")
+        expect.append(R.last_info)
+
+    def attempt(tok, fn):
+        """an operation that must raise and change nothing"""
+        try:
+            fn()
+            expect.append("done")
+        except (ValueError, IndexError):
+            expect.append("rej")
+        ops.append(tok)
+
     hist = ["call"]
     cap = None
-    res = R.call_grids(fdg, fg, cap, tag="history", history=list(hist))
+    res = None
+    do_call()
     for _ in range(rng.randint(1, 3)):
-        acts = ["edit_flowdir", "assign_flowdir", "other_cap", "clone", "pickle", "toggle_field", "same_again"]
+        acts = ["edit_flowdir", "assign_flowdir", "other_cap", "clone", "pickle", "toggle_field", "same_again", "bad_flowdir"]
         if res is not None:
             acts += ["edit_result", "edit_result", "feed_back"]
         if fg is not None:
-            acts += ["edit_field", "edit_field", "assign_field", "field_nodata", "flat_setitem"]
+            acts += ["edit_field", "edit_field", "assign_field", "field_nodata", "flat_setitem", "bad_field"]
+        else:
+            acts += ["flowdir_nodata"]
         act = rng.choice(acts)
         if act == "edit_result":
             # the caller scribbles on the returned array: a later answer must not depend on it
-            res.data[...] = rng.choice([0.0, 123.0, -7.0])
+            if rng.random() < 0.6:
+                res.data[...] = rng.choice([0.0, 123.0, -7.0])
+                ops.append(f"rfill:{C.f2h(float(res.data.flat[0]))}"); expect.append("done")
+            else:
+                k = rng.randrange(n)
+                res.data.flat[k] = rng.choice([0.0, 55.0, -2.5])
+                ops.append(f"rset:{k}:{C.f2h(float(res.data.flat[k]))}"); expect.append("done")
             if rng.random() < 0.5:
                 res.nodata = 77.0
+                ops.append(f"rnd:{C.f2h(float(res.nodata))}"); expect.append("done")
         elif act == "edit_flowdir":
             # in place, same size: one or all cells get another direction
             new = new_fd()
             if rng.random() < 0.5:
                 k = rng.randrange(n)
                 fdg.data.flat[k] = new[k] if fdg.data.dtype != np.uint8 or 0 <= new[k] <= 255 else 0
+                ops.append(f"fdset:{k}:{int(fdg.data.flat[k])}"); expect.append("done")
             else:
                 fdg.data[...] = np.array([v if fdg.data.dtype != np.uint8 or 0 <= v <= 255 else 0 for v in new]).reshape(nrows, ncols)
+                ops.append(f"fdassign:{nrows}:{ncols}:{C.ilist(fdvals())}"); expect.append("done")
         elif act == "assign_flowdir":
             fdg.data = np.array([v if 0 <= v <= 255 else 0 for v in new_fd()], dtype=np.int64).reshape(nrows, ncols)
+            ops.append(f"fdassign:{nrows}:{ncols}:{C.ilist(fdvals())}"); expect.append("done")
+        elif act == "bad_flowdir":
+            # a wrong-shape assignment / a cell index outside the grid must raise and leave the grid as it was
+            if rng.random() < 0.5:
+                r2, c2 = rng.choice([(ncols, nrows + 1), (nrows + 1, ncols), (1, n + 1), (nrows, ncols + 1)])
+                attempt(f"fdassign:{r2}:{c2}:{C.ilist([0] * (r2 * c2))}",
+                        lambda: setattr(fdg, "data", np.zeros((r2, c2), dtype=np.int64)))
+            else:
+                k = n + rng.randint(0, 3)
+                attempt(f"fdset:{k}:1", lambda: fdg.data.flat.__setitem__(k, 1))
+        elif act == "flowdir_nodata":
+            fdg.nodata = rng.choice([0, 255, 7, 100])
+            ops.append(f"fdnd:{C.f2h(float(fdg.nodata))}"); expect.append("done")
         elif act == "edit_field":
             if rng.random() < 0.5:
-                fg.data.flat[rng.randrange(n)] = float(rng.randint(0, 50))
+                k = rng.randrange(n)
+                fg.data.flat[k] = float(rng.randint(0, 50))
+                ops.append(f"fset:{k}:{C.f2h(float(fg.data.flat[k]))}"); expect.append("done")
             else:
                 fg.data[...] = fg.data * 2 + 1
+                ops.append(f"fassign:{nrows}:{ncols}:{C.flist(fvals_of(fg))}"); expect.append("done")
         elif act == "flat_setitem":
-            fg[rng.randrange(n)] = float(rng.randint(1, 9))
+            k = rng.randrange(n)
+            fg[k] = float(rng.randint(1, 9))
+            ops.append(f"fset:{k}:{C.f2h(float(fg.data.flat[k]))}"); expect.append("done")
         elif act == "assign_field":
             fg.data = np.array(new_field(), dtype=np.float64).reshape(nrows, ncols)
+            ops.append(f"fassign:{nrows}:{ncols}:{C.flist(fvals_of(fg))}"); expect.append("done")
+        elif act == "bad_field":
+            if rng.random() < 0.5:
+                r2, c2 = rng.choice([(ncols, nrows + 1), (nrows + 1, ncols), (1, n + 1), (nrows, ncols + 1)])
+                attempt(f"fassign:{r2}:{c2}:{C.flist([1.0] * (r2 * c2))}",
+                        lambda: setattr(fg, "data", np.ones((r2, c2))))
+            else:
+                k = n + rng.randint(0, 3)
+                attempt(f"fset:{k}:{C.f2h(1.0)}", lambda: fg.__setitem__(k, 1.0))
         elif act == "field_nodata":
             fg.nodata = rng.choice([-5, -9999, 0, 12345])
+            ops.append(f"fnd:{C.f2h(float(fg.nodata))}"); expect.append("done")
         elif act == "other_cap":
-            cap = rng.choice([None, n, n + 3, max(n - 1, 1), 1, 2])
+            cap = rng.choice([None, n, n + 3, max(n - 1, 1), 1, 2, 0, -3])
+            ops.append(f"cap:{-1 if cap is None else cap}"); expect.append("done")
         elif act == "clone":
             fdg = fdg.clone() if rng.random() < 0.5 else copy.deepcopy(fdg)
+            ops.append("fdclone"); expect.append("done")
             if fg is not None:
                 fg = fg.clone()
+                ops.append("fclone"); expect.append("done")
         elif act == "pickle":
             fdg = pickle.loads(pickle.dumps(fdg))
+            ops.append("fdclone"); expect.append("done")
             if fg is not None:
                 fg = pickle.loads(pickle.dumps(fg))
+                ops.append("fclone"); expect.append("done")
         elif act == "toggle_field":
             if fg is None:
                 fg = G.Grid("f", ncols=ncols, nrows=nrows, dtype=np.float64, nodata=-9999.0)
                 fg.data = np.array(new_field(), dtype=np.float64).reshape(nrows, ncols)
+                ops.append("fnew:" + gtok(fg)); expect.append("done")
             else:
                 fg = None
+                ops.append("fdrop"); expect.append("done")
         elif act == "feed_back":
-            fg = res          # accumulate the accumulation: the earlier result is now an input grid
+            fg = res          # accumulate the accumulation: the earlier result is now an input grid (the same object)
+            ops.append("feedback"); expect.append("done")
+            # the values of that object are the REAL result's (another summation order, or values the property does not
+            # fix on cyclic / capped calls, may differ from the model's own result): the model's object is given them
+            ops.append(f"fassign:{nrows}:{ncols}:{C.flist(fvals_of(fg))}"); expect.append("done")
+            ops.append(f"fnd:{C.f2h(float(fg.nodata))}"); expect.append("done")
         hist.append(act)
         hist.append("call")
-        res = R.call_grids(fdg, fg, cap, tag="history", history=list(hist))
+        do_call()
+    final = {"field": None if fg is None else ((int(fg.nrows), int(fg.ncols)), float(fg.nodata), fvals_of(fg)),
+             "res": None if res is None else ((int(res.nrows), int(res.ncols)), float(res.nodata), fvals_of(res)),
+             "fd": fdvals()}
+    R.reqs.append(head + " " + " ".join(ops))
+    R.info.append(({**case0, "history": hist}, ("hist", expect, final), [], 0.0, 1))
+    R.ctx.count(("h", head, tuple(ops)), len(ops) > 2, "history/run/" + ("with_rejected_op" if "rej" in expect else "accepted_ops"))
+
+
+def nonpositive_nprint_probe(R, rng, code_at):
+    """nprint = 0 and negative values (the kernel guards `i % nprint` with `nprint > 0`): run in a child process so that a
+    crash there is not the end of the check (it is recorded, not reported: C05's matter); the answers, when there are
+    answers, must be those of the same calls made here with a large nprint (the model answers the same for every
+    nprint — Props: cAccumulateP_result)"""
+    import subprocess
+    import sys
+    import tempfile
+    np, G = R.np, R.G
+    cases = []
+    for _ in range(6):
+        nrows, ncols = rng.randint(1, 5), rng.randint(1, 5)
+        n = nrows * ncols
+        cases.append({"nrows": nrows, "ncols": ncols, "flowdir": gen_forest(rng, nrows, ncols, code_at),
+                      "field": [float(rng.randint(1, 9)) for _ in range(n)], "nprint": rng.choice([0, 0, -1, -100])})
+    want = []
+    for c in cases:
+        fdg = G.Grid("fd", ncols=c["ncols"], nrows=c["nrows"], dtype=np.int64, nodata=-1)
+        fdg.data = np.array(c["flowdir"], dtype=np.int64).reshape(c["nrows"], c["ncols"])
+        fg = G.Grid("f", ncols=c["ncols"], nrows=c["nrows"], dtype=np.float64, nodata=-9999.0)
+        fg.data = np.array(c["field"]).reshape(c["nrows"], c["ncols"])
+        res = R.call_grids(fdg, fg, None, tag="nprint_probe")
+        want.append(None if res is None else [float(v) for v in res.data.ravel()])
+        R.reqs.append(f"caccp {c['nrows']} {c['ncols']} {R.codes_tok} {C.ilist(c['flowdir'])} {c['nprint']} {c['nrows'] * c['ncols']} "
+                      f"{C.f2h(-9999.0)} {C.flist(c['field'])} {C.flist(c['field'])}")
+        R.info.append(({**c, "via": "kernel"}, ("caccp", True), [], 0.0, 1))
+    code = (
+        "import json, sys, os\n"
+        "import numpy as np\n"
+        "from hydrodiy.gis import grid as G\n"
+        "cases = json.load(open(sys.argv[1]))\n"
+        "out = []\n"
+        "for c in cases:\n"
+        "    fdg = G.Grid('fd', ncols=c['ncols'], nrows=c['nrows'], dtype=np.int64, nodata=-1)\n"
+        "    fdg.data = np.array(c['flowdir'], dtype=np.int64).reshape(c['nrows'], c['ncols'])\n"
+        "    fg = G.Grid('f', ncols=c['ncols'], nrows=c['nrows'], dtype=np.float64, nodata=-9999.0)\n"
+        "    fg.data = np.array(c['field']).reshape(c['nrows'], c['ncols'])\n"
+        "    try:\n"
+        "        r = G.accumulate(fdg, fg, nprint=c['nprint'])\n"
+        "        out.append([float(v) for v in r.data.ravel()])\n"
+        "    except Exception as e:\n"
+        "        out.append('raised ' + type(e).__name__)\n"
+        "    json.dump(out, open(sys.argv[2], 'w'))\n")
+    with tempfile.TemporaryDirectory() as td:
+        fin, fout = os.path.join(td, "in.json"), os.path.join(td, "out.json")
+        with open(fin, "w") as f:
+            json.dump(cases, f)
+        env = dict(os.environ, PYTHONPATH=os.pathsep.join(p for p in sys.path if p))
+        try:
+            pr = subprocess.run([sys.executable, "-c", code, fin, fout], env=env, stdout=subprocess.DEVNULL,
+                                stderr=subprocess.DEVNULL, timeout=120)
+            rc = pr.returncode
+        except subprocess.TimeoutExpired:
+            rc = "timeout"
+        got = json.load(open(fout)) if os.path.exists(fout) else []
+    for i, c in enumerate(cases):
+        g = got[i] if i < len(got) else f"no answer (child exit {rc})"
+        kind = "same" if g == want[i] else "no_answer_or_raised" if isinstance(g, str) else "differs"
+        R.ctx.count(("np", i, c["nprint"], tuple(c["flowdir"])), True, "nprint_probe/" + kind)
+        # a crash or an exception for nprint <= 0 is recorded only (memory safety / argument validation is C05's matter,
+        # not a clause of this property); an ANSWER that differs is reported
+        if kind == "differs":
+            R.ctx.disagree("C11: accumulate with nprint <= 0 does not answer what it answers with a large nprint (the model's "
+                           "result does not depend on nprint)", {**c, "via": "wrapper", "impl": g if isinstance(g, str) else g[:32],
+                                                                "expected": want[i] and want[i][:32]})
+            break
 
 
 def caps_for(rng, n, longest):
@@ -835,7 +1135,20 @@ def _body(ctx, rng):
                     and rng.random() < 0.25:
                 f_dtype = rng.choice(["int64", "int32"])
             cap = caps_for(rng, n, fl.longest)
-            R.wrapper_case(nrows, ncols, fd, field, nd, cap, fd_dtype, f_dtype, tag=gk, bounds=rng.random() < 0.4)
+            # nprint: the wrapper's default (100), every cell, a few cells, never — it must decide nothing but the log
+            R.wrapper_case(nrows, ncols, fd, field, nd, cap, fd_dtype, f_dtype, tag=gk, bounds=rng.random() < 0.4,
+                           nprint=rng.choice([NPRINT, NPRINT, None, 1, 2, 7, n, n + 1]))
+        if n >= 2 and rng.random() < 0.25:
+            # the same flattened codes and field on a grid of ANOTHER shape with as many cells, right after: nothing the
+            # previous call computed (downstream cells, chains) is valid for it
+            shapes2 = [(r2, n // r2) for r2 in range(1, n + 1) if n % r2 == 0 and (r2, n // r2) != (nrows, ncols)]
+            if shapes2:
+                r2, c2 = rng.choice(shapes2)
+                kind = rng.choice(["unit", "posint", "distinct", "signed"])
+                nd = -1.0 if kind == "unit" else -9999.0
+                fld = gen_field(rng, n, kind, nd)
+                for (ra, ca) in ((nrows, ncols), (r2, c2)) if rng.random() < 0.5 else ((r2, c2), (nrows, ncols), (r2, c2)):
+                    R.wrapper_case(ra, ca, fd, fld, nd, None, tag="reshaped")
         if it % 4 == 0:
             R.downstream_case(nrows, ncols, [v for v in fd])
         if it % 5 == 0:
@@ -847,7 +1160,8 @@ def _body(ctx, rng):
             fvals = gen_field(rng, n, rng.choice(FIELD_KINDS[1:-1]), -9999.0)
             acc0 = list(fvals)
             cap = rng.choice([n, n, max(fl.longest, 1), max(fl.longest - 1, 1), fl.longest + 1, 1, 2, 3, n + 1])
-            R.kernel_case(nrows, ncols, fd, fvals, rng.choice([-9999.0, float("nan"), -1.0]), cap, acc0, tag=gk)
+            R.kernel_case(nrows, ncols, fd, fvals, rng.choice([-9999.0, float("nan"), -1.0]), cap, acc0, tag=gk,
+                          nprint=rng.choice([NPRINT, 1, 3, 100, n]))
         if it % 500 == 499:
             R.flush()
     R.flush()
@@ -887,6 +1201,17 @@ def _body(ctx, rng):
         R.call_grids(fdg, fg, rng.choice([None, None, 0, -3, 5]), tag="malformed")
     for shape in [(0, 3), (0, 1), (0, 0), (2, 0), (1, 0)]:
         R.kernel_case(shape[0], shape[1], [], [], -1.0, 5, [], tag="degenerate")
+    # grids without rows / without columns through the wrapper (the points the hypotheses 1 <= nrows, 0 < ncols of the
+    # theorems exclude): the default limit is then 0 and is rejected; an explicit limit >= 1 is rejected without rows
+    # and answers an empty grid without columns (model and, today, code) — run and recorded, not compared, no oracle
+    for (nr0, nc0) in [(0, 3), (3, 0), (0, 0), (1, 0), (0, 1), (2, 0)]:
+        for cap0 in [None, 1, 4, 0]:
+            for with_field in (False, True):
+                fdg = G.Grid("fd", ncols=nc0, nrows=nr0, dtype=np.int64, nodata=-1)
+                fg = G.Grid("f", ncols=nc0, nrows=nr0, dtype=np.float64, nodata=-9999.0) if with_field else None
+                R.call_grids(fdg, fg, cap0, tag="malformed")
+    R.flush()
+    nonpositive_nprint_probe(R, rng, code_at)
     R.flush()
 
     ctx.extra["rule"] = __doc__.split("Cases:")[1].strip()
@@ -894,7 +1219,11 @@ def _body(ctx, rng):
     ctx.assumptions += [
         "theorems are exact-arithmetic statements (any commutative monoid / the kernel's own left-to-right order for a bare "
         "addition); IEEE rounding is covered by the Float correspondence within the budget of a re-ordered sum",
-        "nprint != 0 (nprint = 0 divides by zero in the kernel: C05); nprint only drives fprintf and is not modelled",
+        "nprint only drives fprintf: the branch is in the model (any integer), the text printed is not observed; nprint <= 0 is "
+        "passed to the real code in a child process (on a tree without the guard nprint = 0 divides by zero: C05)",
+        "IEEE double addition is a rounding of the exact sum with relative error 2^-53 that keeps the integers up to 2^53 "
+        "(hypotheses of the rounded-arithmetic theorems; core Float is opaque): observed on every integer-valued case sent to the "
+        "model's Int instance",
         "the three buffers have the shape of the flow-direction grid (asserted by the Cython wrapper)",
         "Grid construction / dtype conversion (numpy astype, clip, deepcopy) is external; flow directions and field "
         "values are taken as the kernel receives them",
